@@ -1897,6 +1897,9 @@ func (bc *Blockchain) AddBlock(block *block.Block) error {
 		if !block.MerkleRoot.Equals(merkle) {
 			return errors.New("invalid block: MerkleRoot mismatch")
 		}
+		if block.HasDuplicateTransactions() {
+			return errors.New("invalid block: duplicate transactions")
+		}
 		mp = mempool.New(len(block.Transactions), false, nil)
 		for _, tx := range block.Transactions {
 			var err error
